@@ -11,6 +11,7 @@ import (
 	"strings"
 
 	"golang.org/x/tools/go/packages"
+	"golang.org/x/tools/go/ssa"
 )
 
 // Normalisation pre-pass: undo "extract helper" refactorings.
@@ -46,7 +47,7 @@ func recordedAnchors() map[string]anchorFP {
 }
 
 // newHelperOverlay computes overlay contents that inline calls of new helpers into pinned functions.
-func (p *Program) newHelperOverlay(current map[string][]byte) (map[string][]byte, []string) {
+func (p *Program) newHelperOverlay(current map[string][]byte, protectCandidates bool) (map[string][]byte, []string) {
 	recorded := recordedAnchors()
 	if len(recorded) < 100 {
 		return nil, nil
@@ -67,6 +68,11 @@ func (p *Program) newHelperOverlay(current map[string][]byte) (map[string][]byte
 			continue
 		}
 		if fn.Object().Exported() {
+			continue
+		}
+		if protectCandidates && p.renameCand[fn] && !p.alias2(fn) && p.callsUnrecorded(fn, recorded) {
+			// possibly a renamed recorded function whose body was split up: inline into it first, so
+			// that rename tracking can recognise it in the next round
 			continue
 		}
 		newObj[fn.Object()] = true
@@ -655,8 +661,10 @@ func (p *Program) collectInlineSites(pk *packages.Package, file *ast.File, calle
 			case dupTail && len(r.Results) > 0 && len(r.Results) == len(rvars):
 				// the continuation copy uses the returned expressions directly
 				vals = nil
-				for _, e := range r.Results {
-					vals = append(vals, "("+lineDir(e.Pos())+ctext(e.Pos(), e.End())+")")
+				for i, e := range r.Results {
+					// converted to the declared result type: an untyped nil or constant keeps the type
+					// it would have had as a result of the helper
+					vals = append(vals, "("+rtypes[i]+")("+lineDir(e.Pos())+ctext(e.Pos(), e.End())+")")
 				}
 			case dupTail && len(r.Results) == 1 && len(rvars) > 1:
 				vals = []string{lineDir(r.Results[0].Pos()) + ctext(r.Results[0].Pos(), r.Results[0].End())}
@@ -695,8 +703,9 @@ func (p *Program) collectInlineSites(pk *packages.Package, file *ast.File, calle
 			sb.WriteString(lineDir(cur))
 		}
 		sb.WriteString(ctext(cur, fd.Body.Rbrace))
-		// falling off the end of a function with named results
-		if len(rnames) > 0 {
+		// falling off the end of a function with named results (cannot happen: a function with
+		// results ends in a terminating statement; kept for the goto form, where it is harmless)
+		if len(rnames) > 0 && !dupTail {
 			fmt.Fprintf(&sb, "\n%s = %s\n", strings.Join(rvars, ", "), strings.Join(mapStrings(rnames, rename), ", "))
 		}
 		sb.WriteString("\n}\n")
@@ -709,16 +718,23 @@ func (p *Program) collectInlineSites(pk *packages.Package, file *ast.File, calle
 		if tail == "" && usedLabel {
 			tail = ";" // a label needs a statement
 		}
+		if dupTail && len(rvars) > 0 {
+			tail = "" // unreachable: every return of the helper continued with its own copy
+		}
 		sb.WriteString(tail)
 		sb.WriteString(suffix)
 		if dupTail {
-			// the original continuation stays after the block (reached only by falling off the helper's end)
-			if replEnd < st.End() {
-				sb.WriteString(text(replEnd, st.End()))
-			}
-			if len(rest) > 0 {
-				sb.WriteString("\n" + lineDir(rest[0].Pos()))
-				sb.WriteString(text(rest[0].Pos(), dupEnd))
+			// the original continuation stays after the block only when control can fall off the
+			// helper's end (a helper without results); a helper with results ends in a terminating
+			// statement, and so does the block that replaces it
+			if len(rvars) == 0 {
+				if replEnd < st.End() {
+					sb.WriteString(text(replEnd, st.End()))
+				}
+				if len(rest) > 0 {
+					sb.WriteString("\n" + lineDir(rest[0].Pos()))
+					sb.WriteString(text(rest[0].Pos(), dupEnd))
+				}
 			}
 			replEnd = dupEnd
 		}
@@ -846,36 +862,9 @@ func LoadNormalized(repoDir, tier string, overlay map[string][]byte) (*Program, 
 		cur[k] = v
 	}
 	var notes []string
-	for step, planner := range []func(*Program) *renamePlan{(*Program).planUnrename, (*Program).planFuncUnrename, (*Program).planFuncUnrename} {
-		plan := planner(prog)
-		if plan == nil {
-			continue
-		}
-		ov := prog.unrenameOverlay(plan, cur)
+	apply := func(ov map[string][]byte, ns []string, what string) bool {
 		if len(ov) == 0 {
-			continue
-		}
-		next := map[string][]byte{}
-		for k, v := range cur {
-			next[k] = v
-		}
-		for k, v := range ov {
-			next[k] = v
-		}
-		if np, err := Load(repoDir, tier, next); err == nil {
-			prog, cur = np, next
-			notes = append(notes, plan.notes...)
-		} else {
-			prog.Normalized = append(prog.Normalized, fmt.Sprintf("rename normalisation step %d abandoned: %s", step, firstLine(err.Error())))
-			if os.Getenv("PKOCHECK_DEBUG_NORMALIZE") != "" {
-				fmt.Fprintln(os.Stderr, err)
-			}
-		}
-	}
-	for pass := 0; pass < 5; pass++ {
-		ov, ns := prog.newHelperOverlay(cur)
-		if len(ov) == 0 {
-			break
+			return false
 		}
 		next := map[string][]byte{}
 		for k, v := range cur {
@@ -886,19 +875,48 @@ func LoadNormalized(repoDir, tier string, overlay map[string][]byte) (*Program, 
 		}
 		np, err := Load(repoDir, tier, next)
 		if err != nil {
-			// the rewritten program does not type-check (an unforeseen capture): analyse the last good one
-			prog.Normalized = append(prog.Normalized, "normalisation abandoned: "+firstLine(err.Error()))
+			// the rewritten program does not type-check (an unforeseen capture): keep the last good one
+			prog.Normalized = append(prog.Normalized, what+" abandoned: "+firstLine(err.Error()))
 			if os.Getenv("PKOCHECK_DEBUG_NORMALIZE") != "" {
 				for k, v := range ov {
 					fmt.Fprintf(os.Stderr, "=== %s\n%s\n", k, v)
 				}
 				fmt.Fprintln(os.Stderr, err)
 			}
+			return false
+		}
+		np.Normalized = prog.Normalized
+		prog, cur = np, next
+		notes = append(notes, ns...)
+		return true
+	}
+	// alternate: undo renames (types/fields/vars, then functions), then one round of helper inlining;
+	// inlining restores the callee sets of renamed functions whose bodies were split up, so rename
+	// tracking gets another chance after every round
+	for round := 0; round < 6; round++ {
+		changed := false
+		for step, planner := range []func(*Program) *renamePlan{(*Program).planUnrename, (*Program).planFuncUnrename, (*Program).planFuncUnrename} {
+			plan := planner(prog)
+			if plan == nil {
+				continue
+			}
+			if apply(prog.unrenameOverlay(plan, cur), plan.notes, fmt.Sprintf("rename normalisation step %d", step)) {
+				changed = true
+			}
+		}
+		ov, ns := prog.newHelperOverlay(cur, round < 2)
+		if apply(ov, ns, "helper inlining") {
+			changed = true
+		} else if round < 2 {
+			// nothing to inline while protecting rename candidates: release them
+			ov, ns = prog.newHelperOverlay(cur, false)
+			if apply(ov, ns, "helper inlining") {
+				changed = true
+			}
+		}
+		if !changed {
 			break
 		}
-		notes = append(notes, ns...)
-		cur = next
-		prog = np
 	}
 	prog.Normalized = append(prog.Normalized, notes...)
 	prog.Normalized = append(prog.Normalized, prog.remainingNewHelperCalls()...)
@@ -1075,4 +1093,35 @@ func mapStrings(xs []string, f func(string) string) []string {
 		out[i] = f(x)
 	}
 	return out
+}
+
+// alias2: fn was matched by rename tracking.
+func (p *Program) alias2(fn *ssa.Function) bool {
+	_, ok := p.alias[fn]
+	return ok
+}
+
+// callsUnrecorded: fn statically calls a workspace function that is neither recorded nor a tracked
+// rename (i.e. part of its former body may have been moved into a new helper).
+func (p *Program) callsUnrecorded(fn *ssa.Function, recorded map[string]anchorFP) bool {
+	for _, c := range callsIn(fn) {
+		callee := staticCallee(c.Common)
+		if callee == nil || callee == fn || callee.Parent() != nil || callee.Synthetic != "" || callee.Object() == nil {
+			continue
+		}
+		if o := callee.Origin(); o != nil {
+			callee = o
+		}
+		if isNonProductPkg(funcPkgPath(callee)) || p.ByPath[funcPkgPath(callee)] == nil {
+			continue
+		}
+		if _, ok := recorded[funcID(callee)]; ok {
+			continue
+		}
+		if p.alias2(callee) {
+			continue
+		}
+		return true
+	}
+	return false
 }
